@@ -14,6 +14,7 @@ import SJ.Drv.C15
 import SJ.Drv.C16
 import SJ.Drv.C04
 import SJ.Drv.Typed
+import SJ.Drv.StreamRaw
 /-!
 `sjdriver` — reads case lines `op args… => impl-observation` on stdin, runs the Lean model and the
 executable specification on each, prints
@@ -41,6 +42,7 @@ def allHandlers : List (String × Handler) :=
     C16.handlers,
     C04.handlers,
     Typed.handlers,
+    StreamRaw.handlers,
   ]
 
 def findHandler (op : String) : Option Handler := (allHandlers.find? (·.1 == op)).map (·.2)
